@@ -313,3 +313,5 @@ func mustJSON(raw []byte, v any) {
 		panic(err)
 	}
 }
+
+func jsonMarshal(v any) ([]byte, error) { return json.Marshal(v) }
